@@ -46,13 +46,24 @@ package ledger
 //       chunks (tar members): each dropped, duplicated, swapped with the next, renamed to an
 //         unknown section; header dropped, duplicated, moved behind the first chunk; unknown
 //         section added; chunk truncated.
+//       multi-record classes around ExpectingMoreEntries (a record with the flag set is staged
+//         WITHOUT an account hash; the hash comes from the account's final record): an extra
+//         trailing record for a new address with the flag set (in the last balances chunk / in a
+//         chunk of its own / before another record / carrying a resource / for an existing
+//         address), every balance record preceded by a forged record for the same address with
+//         the flag set (balance +1e12, status flipped; same chunk or a chunk of its own), every
+//         balance record followed by a forged final record, the flag set on the last record of
+//         the file, every record with resources replaced by its partial half only, and the
+//         legitimate split of a record into a partial and a final record.
 //     Oracle: ProcessStagingBalances / BuildMerkleTrie / fetching the block named by the header
 //     / VerifyCatchpoint must reject — or, if everything accepts, the node that completes the
 //     catchup (CompleteCatchup) must end up in exactly the state of the faithful restore (the
 //     mutation did not change the represented state, e.g. a record moved between chunks or a
 //     header field that the accessor ignores). An accepted mutation that leads to a different
 //     adopted state is a violation: "C16:kv-boundary-shift" for the key/value boundary shift
-//     (known finding F-KV), "C16:tamper-accepted:<kind>" otherwise.
+//     (known finding F-KV), "C16:dangling-partial-record" / "C16:shadowed-first-record" for the
+//     two ExpectingMoreEntries classes that the unchanged tree accepts (finding
+//     findings/C16-dangling-partial-record), "C16:tamper-accepted:<kind>" otherwise.
 //     Attempts reuse one ledger per worker (ResetStagingBalances(newCatchup=true) before every
 //     attempt, a new accessor object per attempt — like the service's retry loop); the pristine
 //     file is re-verified on the same ledger every 40 attempts and at the end, so a ledger that
